@@ -28,6 +28,14 @@ type issued struct {
 
 var durations = []int{0, 1, 2, 10, 30, 59, 60, 61, 119, 120, 121, 600, 3600}
 
+// durations at the edges of what an int of seconds can mean: already over at
+// issue (negative), and longer than any arithmetic in nanoseconds can hold
+// (2^63 ns is about 292 years = 9223372036 s). A negative number of seconds has
+// elapsed the moment the token is issued; the long ones outlive every run.
+var edgeDurations = []int{-1, -120, -86400, -10_000_000_000, -18_446_744_000, 10_000_000_000, 9_223_372_036, 9_223_372_037, 1 << 55, 1 << 31, 1<<32 + 5}
+
+const forever = 1_000_000_000 // lifetimes from here on (31 years) outlive every run
+
 func life(d int) int {
 	if d == 0 {
 		return 120
@@ -99,6 +107,10 @@ func body(r *sim.Run) {
 			si := t.Intn(nsec)
 			u := sim.Pick(t, users)
 			d := sim.Pick(t, durations)
+			if t.Chance(120) {
+				d = sim.Pick(t, edgeDurations)
+				r.Probe("issue_edge_duration")
+			}
 			tok, err := tokens.GenerateLoginToken(tokens.TokenOptions{ServerPrivateKey: secrets[si], ServerName: servers[si], UserID: u, Duration: d})
 			if err != nil {
 				r.Violate("C20", "issue", "error", "GenerateLoginToken failed: %v", err)
@@ -108,6 +120,9 @@ func body(r *sim.Run) {
 		case 1: // advance the clock around a token's lifetime
 			tk := sim.Pick(t, toks)
 			target := tk.at.Add(time.Duration(tk.life) * time.Second)
+			if tk.life <= 0 || tk.life >= forever {
+				target = time.Now() // nothing to aim at: over at issue, or never over
+			}
 			off := sim.Pick(t, []int{-2000, -1000, -1, 0, 1, 400, 600, 999, 1000, 2000, 59000, 60000, 61000, 3600000, 86400000})
 			d := time.Until(target.Add(time.Duration(off) * time.Millisecond))
 			if d <= 0 {
@@ -134,7 +149,7 @@ func body(r *sim.Run) {
 			err := tokens.ValidateToken(tokens.TokenOptions{ServerPrivateKey: secrets[si], ServerName: servers[si], UserID: u}, tk.token)
 			age := time.Since(tk.at)
 			lifeD := time.Duration(tk.life) * time.Second
-			r.Logf("t=%v validate #%d secret=%d user=%s age=%v life=%v -> %v", r.Now(), idx, si, u, age, lifeD, err)
+			r.Logf("t=%v validate #%d secret=%d user=%s age=%v life=%ds -> %v", r.Now(), idx, si, u, age, tk.life, err)
 			switch {
 			case si != tk.secret:
 				r.Check(err != nil, "C20", "wrong_secret", "accepted", "token #%d issued under secret %d validated under secret %d", idx, tk.secret, si)
@@ -142,19 +157,19 @@ func body(r *sim.Run) {
 			case u != tk.user:
 				r.Check(err != nil, "C20", "wrong_user", "accepted", "token #%d issued for %s validated for %s", idx, tk.user, u)
 				r.Nontriv = true
-			case age >= lifeD:
+			case tk.life <= 0 || (tk.life < forever && age >= lifeD):
 				// no slack on this side: the expiry is a whole second no later
 				// than issue + lifetime, so once the lifetime has elapsed the
 				// token is dead whatever fraction of a second it was issued at
 				r.Nontriv = true
 				r.Probe("validate_after_expiry")
-				r.Check(err != nil, "C20", "expiry", "accepted_after_lifetime", "token #%d (lifetime %v) still validates at age %v", idx, lifeD, age)
-			case age <= lifeD-time.Second:
+				r.Check(err != nil, "C20", "expiry", "accepted_after_lifetime", "token #%d (lifetime %d s) still validates at age %v", idx, tk.life, age)
+			case tk.life >= forever || age <= lifeD-time.Second:
 				r.Probe("validate_within_lifetime")
 				if age > 60*time.Second {
 					r.Nontriv = true
 				}
-				r.Check(err == nil, "C20", "liveness", "refused_within_lifetime", "token #%d (lifetime %v) refused at age %v: %v", idx, lifeD, age, err)
+				r.Check(err == nil, "C20", "liveness", "refused_within_lifetime", "token #%d (lifetime %d s) refused at age %v: %v", idx, tk.life, age, err)
 			default:
 				r.Probe("validate_at_boundary_second")
 			}
@@ -346,7 +361,7 @@ func TestEngine(t *testing.T) {
 		Name: "toksim",
 		Body: body,
 		Rule: func(string) string {
-			return "one run = 2-3 issuing secrets, 3-8 tape-chosen operations (issue with a duration from a boundary list, advance the simulated clock to lifetime-2s..+1d, validate with same/other secret/user, alter token at byte or caveat level) starting at a tape-chosen second of the minute/hour; non-trivial = the run validated a token after its lifetime, >60 s into its lifetime, under a wrong secret/user, or validated an altered token; distinct = distinct event-log hash"
+			return "one run = 2-3 issuing secrets, 3-8 tape-chosen operations (issue with a duration from a boundary list, one time in eight from the edges of an int of seconds: negative = over at issue, 2^31 / 2^32+5 / around 2^63 ns / 2^55 s = never over within a run, advance the simulated clock to lifetime-2s..+1d, validate with same/other secret/user, alter token at byte or caveat level) starting at a tape-chosen second of the minute/hour; non-trivial = the run validated a token after its lifetime, >60 s into its lifetime, under a wrong secret/user, or validated an altered token; distinct = distinct event-log hash"
 		},
 		Real:        []string{"tokens.GenerateLoginToken", "tokens.ValidateToken", "tokens.GetUserFromToken", "gopkg.in/macaroon.v2"},
 		Stub:        []string{"wall clock (testing/synctest fake clock)"},
